@@ -317,7 +317,7 @@ def extra(check, ci, cm, cases):
     """(a) implementation against the executable composition of the statement on a sample of valid scenes;
        (b) non-fatal ties of overlaps_for_line and render_pixel_last_access (not observables of C15)."""
     out = []
-    k = 6 if check.tier == 'quick' else 40
+    k = 10 ** 9      # the evaluator costs about 20 ms per frame: every valid scene is judged
     done = 0
     for cid, lines in cases:
         if done >= k:
